@@ -698,13 +698,22 @@ class OperationUpdate:
     # endregion wait
 
 
+_UNIX_EPOCH = datetime.datetime(1970, 1, 1, tzinfo=datetime.UTC)
+
+
 class TimestampConverter:
     """Converter for datetime/Unix timestamp conversions."""
 
     @staticmethod
     def to_unix_millis(dt: datetime.datetime | None) -> int | None:
         """Convert datetime to Unix timestamp in milliseconds."""
-        return int(dt.timestamp() * 1000) if dt else None
+        if not dt:
+            return None
+        if dt.tzinfo is None:
+            return int(dt.timestamp() * 1000)
+        # exact integer arithmetic: int(dt.timestamp() * 1000) loses a millisecond for some
+        # millisecond-aligned instants because of floating point rounding
+        return (dt - _UNIX_EPOCH) // datetime.timedelta(milliseconds=1)
 
     @staticmethod
     def from_unix_millis(ms: int | None) -> datetime.datetime | None:
